@@ -619,7 +619,12 @@ def ut_tolerances(n, nx, ny, alpha, beta, kappa, A, b, Xi, mi, Nadd):
     Aflt = [[float(x) for x in row] for row in A]
     Y = [[sum(Aflt[i][l] * Xf[l][j] for l in range(n)) + float(b[i]) for j in range(N1)] for i in range(ny)]
     ybar = [sum(float(swm[j]) * Y[i][j] for j in range(N1)) for i in range(ny)]
-    tol_mean = [C_UT * sum((nops * wm[j] + twm[j]) * Ymag[i][j] for j in range(N1)) + 1e-300 for i in range(ny)]
+    # The implementation's weights differ from the exact ones by up to twm (cancellation in lambda and c for small
+    # alpha), but they are computed from ONE rounded c: they still sum to one and satisfy 2 w c = 1 up to a few eps.
+    # Their error therefore only meets the offsets Y_j - Y_0 of the points, not the points themselves; what meets the
+    # points is the rounding of the weighted sum, eps * sum |w_j| |Y_j|.
+    tol_mean = [C_UT * sum(nops * wm[j] * (Ymag[i][j] + Ymag[i][0]) + twm[j] * (abs(Y[i][j] - Y[i][0]) + (n + 3) * EPS * (Ymag[i][j] + Ymag[i][0]))
+                           for j in range(N1)) + 1e-300 for i in range(ny)]
     dY = [[(n + 3) * EPS * Ymag[i][j] for j in range(N1)] for i in range(ny)]
     # offsets: |d| bounded by the exact offset plus its own error
     dd = [[dY[i][j] + tol_mean[i] for j in range(N1)] for i in range(ny)]
